@@ -9,7 +9,7 @@ from ..cfg import build_cfg, calls_in
 from ..core import Ctx, property_info, rule, share
 from ..exc import MayRaise
 from ..model import AnalysisError, ClassInfo, FuncInfo, Module, dotted_name, norm_text, walk_no_nested
-from ..q import leaves_at, names_from_calls, return_values, stores, unparse
+from ..q import leaves_at, callable_body, sort_calls, reach_table, reach_env, value_texts, passes, func_text, names_from_calls, return_values, stores, unparse
 
 CONV = "xsdata.formats.converter"
 ENUMS = "xsdata.models.enums"
@@ -112,21 +112,12 @@ def documented_priority(ctx: Ctx) -> None:
     ctx.ob("documented priority order = table order", doc_order == code_order, at=mod, node=table, construct="doc order",
            msg=f"docs say {doc_order}, table says {code_order}")
     st = ctx.repo.func(f"{CONV}:ConverterFactory.sort_types")
-    srt = [c for c in calls_in(st.node) if isinstance(c.func, ast.Name) and c.func.id == "sorted"]
     ok = False
-    for c in srt:
-        key = next((k.value for k in c.keywords if k.arg == "key"), None)
-        rev = next((k.value for k in c.keywords if k.arg == "reverse"), None)
-        body, arg0 = None, None
-        if isinstance(key, ast.Lambda):
-            body, arg0 = key.body, key.args.args[0].arg
-        elif isinstance(key, ast.Name):  # a named key function of the same module
-            kf = ctx.repo.functions.get(f"{st.module.name}:{key.id}")
-            rv = return_values(kf.node) if kf is not None else []
-            if kf is not None and len(rv) == 1 and kf.pos_params:
-                body, arg0 = rv[0], kf.pos_params[0].arg
-        if body is not None and rev is None:
-            ok = unparse(body).replace(" ", "") == f"__PYTHON_TYPES_SORTED__.get({arg0},0)"
+    for c, key, rev in sort_calls(st.node):
+        cb = callable_body(ctx.repo, st, key)
+        if cb is not None and cb[1] and (rev is None or (isinstance(rev, ast.Constant) and rev.value is False)):
+            body, arg0 = cb[0], cb[1][0]
+            ok = unparse(body).replace(" ", "") in (f"__PYTHON_TYPES_SORTED__.get({arg0},0)", f"__PYTHON_TYPES_SORTED__.get({arg0},default=0)")
     ctx.ob("sort_types sorts ascending by the table (unknown types first)", ok, at=st, construct="sort key", msg="sort key is not the priority table")
     # str is last: it accepts everything, so any type after it would be unreachable
     ctx.ob("str has the highest priority number (tried last)", bool(code_order) and code_order[-1] == "str", at=mod, node=table, construct="str last",
